@@ -1,15 +1,14 @@
 #!/bin/bash
-# try_seed.sh <patch> <prop> [tier] [lines] : apply a seeded change to /repo, run the check, undo it.
-# The evidence file and replays of the clean tree are saved and restored (a seeded run must not be committed as evidence).
-P=$1; ID=$2; TIER=${3:-quick}
-B=$(mktemp -d /tmp/try_seed.XXXX)
-cp /verif/evidence/$ID.json $B/ 2>/dev/null
-cp -r /verif/replays/$ID $B/replays 2>/dev/null
-git -C /repo apply $P || exit 2
-/verif/bin/check $ID --tier $TIER 2>&1 | grep -v "^WARNING conda" | tail -${4:-6} | cut -c1-600
+# try_seed.sh <patch> <prop> [tier] [lines] [tag]: apply a seeded change to a scratch worktree of /repo, run the
+# property's check against it (VERIF_REPO), remove the worktree.  Evidence and replays of the trial go to a
+# scratch directory (VERIF_OUT): nothing under /verif/evidence or /repo is touched.
+P=$1; ID=$2; TIER=${3:-quick}; TAG=${5:-$ID}
+W=/tmp/tryseed/$TAG
+rm -rf $W $W.out; mkdir -p /tmp/tryseed $W.out
+git -C /repo worktree prune
+git -C /repo worktree add -q --detach $W HEAD || exit 2
+git -C $W apply $P || { git -C /repo worktree remove --force $W; exit 2; }
+VERIF_REPO=$W VERIF_OUT=$W.out /verif/bin/check $ID --tier $TIER 2>&1 | grep -v "^WARNING conda" | tail -${4:-6} | cut -c1-600
 echo "exit=${PIPESTATUS[0]}"
-git -C /repo checkout -- .
-git -C /repo status --short | head
-cp $B/$ID.json /verif/evidence/ 2>/dev/null
-rm -rf /verif/replays/$ID; [ -d $B/replays ] && cp -r $B/replays /verif/replays/$ID
-rm -rf $B
+git -C /repo worktree remove --force $W
+rm -rf $W.out
